@@ -2,6 +2,7 @@
 package w20
 
 import (
+	"strings"
 	"errors"
 	"fmt"
 	"strconv"
@@ -135,11 +136,11 @@ func texts(alpha string, maxLen int) []string {
 	var gen func(cur string)
 	gen = func(cur string) {
 		out = append(out, cur)
-		if len(cur) == maxLen {
+		if len(cur) >= maxLen {
 			return
 		}
 		for i := 0; i < len(alpha); i++ {
-			gen(cur + string(alpha[i]))
+			gen(cur + alpha[i:i+1]) // one byte, whatever it is
 		}
 	}
 	gen("")
@@ -150,16 +151,26 @@ func texts(alpha string, maxLen int) []string {
 // (with optional empty writes interleaved), all budgets, for each prefix.
 func Enum(j *job.Job, s *job.Sink) {
 	alpha := j.Params["alphabet"]
+	if strings.HasPrefix(alpha, "\"") {
+		// written as a Go string literal, for alphabets with bytes that do not survive JSON
+		alpha, _ = strconv.Unquote(alpha)
+	}
 	maxLen, _ := strconv.Atoi(j.Params["maxlen"])
 	// ">" and ">>" share nothing with the texts, "a", "ba" and "ab\n" are made of the
 	// texts' own characters (a renderer that recognises its prefix by content is wrong)
 	prefixes := []string{">", ">>", "\t\t", "ab\n", "", "a", "ba"}
+	if !strings.HasPrefix(alpha, "a") {
+		// an alphabet of unusual bytes (NUL, CR, 0xff): prefixes made of them as well
+		prefixes = []string{">", ">>", "", alpha[:1], alpha[1:3], "--"}
+	}
 	all := texts(alpha, maxLen)
+	own := 0
 	for ti, text := range all {
 		if ti%j.Shards != j.Shard {
 			continue
 		}
-		if ti%512 == 0 {
+		if own++; own%16 == 1 {
+			// (the per-case CPU clock of the driver restarts here)
 			s.Current(int64(ti), map[string]any{"text": text})
 		}
 		for _, prefix := range prefixes {
